@@ -266,8 +266,10 @@ impl Accumulator for TrivialNthValueAccumulator {
             let array_agg_res = ScalarValue::convert_array_to_scalar_vec(&states[0])?;
             for v in array_agg_res.into_iter().flatten() {
                 self.values.extend(v);
-                if self.values.len() > n_required {
-                    // There is enough data collected, can stop merging:
+                if self.n > 0 && self.values.len() > n_required {
+                    // There is enough data collected, can stop merging (only
+                    // when counting from the start: for a negative `n` the
+                    // result is taken from the end of the last states).
                     break;
                 }
             }
